@@ -482,7 +482,7 @@ pub const C39: Check = Check {
     rule: "worlds whose validity periods are drawn independently at every level (TA and CA certificate notAfter, manifest EE notAfter, \
            manifest nextUpdate, CRL nextUpdate, object EE notAfter), including short-lived objects that contribute nothing (faulty, \
            or GBR/unknown). Oracle: snapshot.refresh() <= min over contributing objects of min(object notAfter, every notAfter / \
-           nextUpdate on its chain); refresh must be present whenever payload is. distinct = which kind of term is the binding \
+           nextUpdate on its chain); refresh must be present whenever payload is; on a quarter of the shards two runs go through the server's update step, the second with the same payload from re-issued objects one of which expires two hours from now, and the served deadline must follow it. distinct = which kind of term is the binding \
            minimum",
     assumptions: &["how the deadline is used for scheduling is C34's business"],
     shards: |_| 16,
@@ -493,9 +493,53 @@ pub const C39: Check = Check {
     finish: None,
 };
 
+/// Two consecutive runs through the server's update step (real engine, real SharedHistory): the second run yields the
+/// same payload from re-issued objects of which one now expires much earlier. The served data set's refresh deadline
+/// must follow the second run.
+fn c39_reissue_leg(ctx: &mut Ctx, rep: &mut Report, b: &mut Builder, rng: &mut Rng) {
+    let n = ctx.tier.pick(2usize, 30);
+    for i in 0..n {
+        if !ctx.time_left() { break }
+        let params = GenParams { tals: 1, max_cas: 2 + rng.usize(3), max_depth: 2, max_objects: 2 + rng.usize(3), repos: 2, ..GenParams::default() };
+        let w1 = generate(rng, now_ts(), &params);
+        let e = expect_fresh(&w1, w1.now, &Policy::default());
+        // a contributing ROA of an accepted CA
+        let cand: Vec<(usize, usize)> = e.accepted.iter().flat_map(|c| w1.cas[*c].objects.iter().enumerate().filter(|(_, o)| matches!(o.kind, ObjKind::Roa { .. }) && o.fault.is_none()).map(move |(k, _)| (*c, k))).collect();
+        if cand.is_empty() { continue }
+        let (c, k) = cand[rng.usize(cand.len())];
+        let mut w2 = w1.clone();
+        let early = w1.now + 2 * 3600;
+        w2.cas[c].objects[k].na = early;                 // same content, shorter-lived EE certificate
+        w2.cas[c].objects[k].serial += 7000;
+        w2.cas[c].mft_number += 1; w2.cas[c].mft_this += 60; w2.cas[c].crl_this = w2.cas[c].mft_this; w2.cas[c].mft_ee_nb = w2.cas[c].mft_this - 60; w2.cas[c].mft_serial += 1;
+        let env = Env::new(&ctx.scratch.join("env-reissue"));
+        env.serve(&b.publish(&w1));
+        let mut srv = match crate::srv::TestServer::start_with_config(env.config.clone(), true) { Ok(s) => s, Err(e) => { rep.inconclusive(format!("server start: {e}")); return } };
+        ctx.begin_case(&json!({"leg": "reissue", "case": i}));
+        if srv.process_once(false).is_err() { rep.inconclusive("first run failed"); continue }
+        let r1 = srv.history.read().current().and_then(|s| s.refresh()).map(|t| t.timestamp());
+        let o1 = srv.history.read().current().map(|s| observe(&s));
+        env.serve(&b.publish(&w2));
+        if srv.process_once(false).is_err() { rep.inconclusive("second run failed"); continue }
+        rep.eval();
+        let r2 = srv.history.read().current().and_then(|s| s.refresh()).map(|t| t.timestamp());
+        let o2 = srv.history.read().current().map(|s| observe(&s));
+        if o1 != o2 { rep.note("re-issue changed the payload; case not judged"); continue }
+        rep.count("reissue_cases_judged", 1);
+        rep.class(format!("reissue|first-deadline-later{}", r1.map(|r| r > early).unwrap_or(false) as u8));
+        match r2 {
+            Some(r) if r <= early => {}
+            other => rep.violation("C39/refresh-after-expiry/unchanged-payload-reissued", format!(
+                "second run: same payload, but the ROA {} of CA {c} was re-issued with notAfter {early}; the served data set's refresh deadline is {:?} (after the first run {:?})", w2.cas[c].objects[k].name, other, r1),
+                json!({"world_run1": w1, "world_run2": w2, "ca": c, "object": k})),
+        }
+    }
+}
+
 fn run_c39(ctx: &mut Ctx, rep: &mut Report) {
     let mut rng = ctx.rng("c39");
     let mut b = match Builder::new() { Ok(b) => b, Err(e) => { rep.inconclusive(e); return } };
+    if ctx.shard % 4 == 0 { c39_reissue_leg(ctx, rep, &mut b, &mut rng); }
     let n = ctx.tier.pick(40usize, 700);
     for i in 0..n {
         if !ctx.time_left() { rep.note("time budget reached"); break }
